@@ -191,7 +191,14 @@ fn cast_ray(bv: &SimdAabb, ray: &SimdRay) -> (SimdBool, SimdReal) {
             tmin = tmin.simd_max(inter_with_near_plane);
             tmax = tmax.simd_min(inter_with_far_plane);
 
-            tmin.simd_le(tmax)
+            // A line passing exactly through a corner of the box (for instance through a vertex
+            // of the polyline) has tmin == tmax mathematically, and rounding in the slab
+            // parameters could order them the wrong way and prune a real intersection.  The
+            // candidates are verified against their edges afterwards, so the test is allowed a
+            // few ulps of slack.
+            let slack = (tmin.simd_max(-tmin) + tmax.simd_max(-tmax))
+                * SimdReal::splat(4.0 * f64::EPSILON);
+            tmin.simd_le(tmax + slack)
         };
 
         hit = hit & is_not_zero_test.select(is_not_zero, is_zero_test);
